@@ -370,7 +370,20 @@ class C13(Check):
             # forward-only / single open+close, straight from the implementation's trace
             ranks = {}
             opens, closes = {}, {}
+            prev = {}
             for evs, state in out:
+                # bufferedamountlow fires exactly on downward crossings: within one input of the layer the
+                # amount moves monotonically (send: up, flush: down), so at most one crossing per channel
+                for h, c in enumerate(state[0]):
+                    lows = sum(1 for e in evs if e[0] == 2 and e[1] == h)
+                    before = prev.get(h, (0, 0))
+                    want = 1 if (before[0] > before[1] and c[2] <= before[1]) else 0
+                    if lows != want and c[1] != 3:
+                        return ("bufferedamountlow-miscount",
+                                f"channel #{h}: bufferedAmount {before[0]} -> {c[2]} with threshold {before[1]}: "
+                                f"{lows} bufferedamountlow event(s), expected {want}")
+                for h, c in enumerate(state[0]):
+                    prev[h] = (c[2], c[3])
                 for e in evs:
                     if e[0] == 10 and e[1] == 3:
                         return ("keyerror-in-close", "KeyError escaped the data-channel layer")
